@@ -82,6 +82,10 @@ func Main() int {
 	}
 	absRepo, _ := filepath.Abs(*repo)
 	absVerif, _ := filepath.Abs(*verif)
+	if err := loadVariants(p, absVerif); err != nil {
+		fmt.Fprintf(os.Stderr, "variants/benign.json: %v\n", err)
+		return 2
+	}
 
 	if *sub != "" {
 		config := *sub
@@ -94,6 +98,11 @@ func Main() int {
 			for i := range p.Mutants {
 				if p.Mutants[i].Name == *mutant {
 					m = &p.Mutants[i]
+				}
+			}
+			for i := range p.Benign {
+				if p.Benign[i].Name == *mutant {
+					m = &p.Benign[i]
 				}
 			}
 			if m == nil {
@@ -187,10 +196,17 @@ func Main() int {
 		}()
 	}
 	var mutants []Mutant
+	benign := map[string]bool{}
 	if !*nomut {
 		for _, m := range p.Mutants {
 			if *onlyMutants == "" || *onlyMutants == m.Name {
 				mutants = append(mutants, m)
+			}
+		}
+		for _, m := range p.Benign {
+			if *onlyMutants == "" || *onlyMutants == m.Name {
+				mutants = append(mutants, m)
+				benign[m.Name] = true
 			}
 		}
 	}
@@ -210,6 +226,18 @@ func Main() int {
 			case res.Err != "":
 				r.Status = "error"
 				r.Detail = tail(res.Err, 600)
+			case benign[m.Name]:
+				r.Status = "quiet"
+				var fired []string
+				for _, o := range res.Obls {
+					if !o.OK {
+						fired = append(fired, o.Rule+" "+o.Key+": "+tail(o.Detail, 200))
+					}
+				}
+				if len(fired) > 0 {
+					r.Status = "false-alarm"
+					r.Detail = fmt.Sprintf("a behaviour-preserving variant made obligations fail: %v", fired)
+				}
 			default:
 				r.Status = "survived"
 				for _, o := range res.Obls {
@@ -310,4 +338,42 @@ func isFlagSet(name string) bool {
 		}
 	})
 	return set
+}
+
+// loadVariants adds the behaviour-preserving variants listed for p in
+// <verif>/variants/benign.json to p.Benign.
+func loadVariants(p *Property, verifDir string) error {
+	b, err := os.ReadFile(filepath.Join(verifDir, "variants", "benign.json"))
+	if err != nil {
+		if os.IsNotExist(err) {
+			return nil
+		}
+		return err
+	}
+	var vs []struct {
+		Name  string   `json:"name"`
+		Props []string `json:"props"`
+		Why   string   `json:"why"`
+		Edits []Edit   `json:"edits"`
+	}
+	if err := json.Unmarshal(b, &vs); err != nil {
+		return err
+	}
+	for _, v := range vs {
+		for _, id := range v.Props {
+			if id != p.ID || len(v.Edits) == 0 {
+				continue
+			}
+			dup := false
+			for _, x := range p.Benign {
+				if x.Name == v.Name {
+					dup = true
+				}
+			}
+			if !dup {
+				p.Benign = append(p.Benign, Mutant{Name: v.Name, File: v.Edits[0].File, Old: v.Edits[0].Old, New: v.Edits[0].New, More: v.Edits[1:]})
+			}
+		}
+	}
+	return nil
 }
